@@ -251,6 +251,11 @@ func (c *tracingHTTP2Conn) closeStreamLocked(streamID uint32, stream *http2Strea
 		stream.requestTracer.emitUnfinished()
 		stream.responseTracer.emitUnfinished()
 		stream.builder.add(&ResponseBodyEnd{Err: err})
+	} else if err != nil {
+		// The stream was reset before any response headers arrived
+		// (e.g. refused): the operation is over, with this error.
+		stream.requestTracer.emitUnfinished()
+		stream.builder.add(&ResponseBodyEnd{Err: err})
 	}
 }
 
